@@ -22,10 +22,13 @@ type workCase struct {
 	Succ    [][]int `json:"succ"`   // successors added while processing item i
 	Yields  []int   `json:"yields"` // explicit yields inside f(i), before the Adds
 	Mode    string  `json:"mode"`   // seq | pct
-	Sched   []uint8 `json:"sched,omitempty"`
-	Data    []uint8 `json:"data,omitempty"`
-	Prio    []uint8 `json:"prio,omitempty"`
-	Changes []int   `json:"changes,omitempty"`
+	// Items optionally gives the value used for item i: "" or "int" = the int i, "nil" = a nil item,
+	// "string" = a string, "struct" = a comparable struct (all valid map keys).
+	Items   []string `json:"items,omitempty"`
+	Sched   []uint8  `json:"sched,omitempty"`
+	Data    []uint8  `json:"data,omitempty"`
+	Prio    []uint8  `json:"prio,omitempty"`
+	Changes []int    `json:"changes,omitempty"`
 }
 
 type outcome struct {
@@ -46,6 +49,15 @@ func valid(c workCase) bool {
 	if c.N < 1 || c.N > 8 || len(c.Succ) == 0 || len(c.Yields) != len(c.Succ) {
 		return false
 	}
+	nils := 0
+	for _, k := range c.Items {
+		if k == "nil" {
+			nils++
+		}
+	}
+	if nils > 1 || len(c.Items) > len(c.Succ) {
+		return false
+	}
 	for _, i := range c.Initial {
 		if i < 0 || i >= len(c.Succ) {
 			return false
@@ -59,6 +71,43 @@ func valid(c workCase) bool {
 		}
 	}
 	return true
+}
+
+type itemKey struct{ N int }
+
+func itemVal(c workCase, i int) any {
+	if i < len(c.Items) {
+		switch c.Items[i] {
+		case "nil":
+			return nil
+		case "string":
+			return fmt.Sprintf("item-%d", i)
+		case "struct":
+			return itemKey{i}
+		}
+	}
+	return i
+}
+
+func itemIndex(c workCase, x any) int {
+	switch v := x.(type) {
+	case nil:
+		for i, k := range c.Items {
+			if k == "nil" {
+				return i
+			}
+		}
+		return -1
+	case int:
+		return v
+	case string:
+		var i int
+		fmt.Sscanf(v, "item-%d", &i)
+		return i
+	case itemKey:
+		return v.N
+	}
+	return -1
 }
 
 // run executes one controlled execution of par.Work and judges it.
@@ -85,10 +134,16 @@ func run(c workCase, strat sched.Strategy, trace bool) outcome {
 	res := sched.Run(strat, sched.Options{MaxSteps: 20000, KeepTrace: trace}, func() {
 		var w par.Work
 		for _, i := range c.Initial {
-			w.Add(i)
+			w.Add(itemVal(c, i))
 		}
 		w.Do(c.N, func(x any) {
-			i := x.(int)
+			i := itemIndex(c, x)
+			if i < 0 || i >= len(c.Succ) {
+				if bad == nil {
+					bad = vt.Failf("unknown-item", "f called with %#v which was never added", x)
+				}
+				return
+			}
 			if doReturned && bad == nil {
 				bad = vt.Failf("f-called-after-do-returned", "f(%d) called after Do returned", i)
 			}
@@ -103,7 +158,7 @@ func run(c workCase, strat sched.Strategy, trace bool) outcome {
 			for _, s := range c.Succ[i] {
 				waiting := sched.BlockedOn("Cond.Wait")
 				fresh := count[s] == 0
-				w.Add(s)
+				w.Add(itemVal(c, s))
 				if waiting > 0 && fresh {
 					wokenByAdd = true
 				}
@@ -206,6 +261,19 @@ func genGraph(t *rapid.T, c *workCase) {
 		c.Succ = append(c.Succ, rapid.SliceOfN(rapid.IntRange(0, items-1), 0, 3).Draw(t, "succ"))
 		c.Yields = append(c.Yields, rapid.IntRange(0, 3).Draw(t, "yields"))
 	}
+	if rapid.IntRange(0, 2).Draw(t, "typed") == 0 {
+		nilAt := -1
+		if rapid.Bool().Draw(t, "hasnil") {
+			nilAt = rapid.IntRange(0, items-1).Draw(t, "nilat")
+		}
+		for i := 0; i < items; i++ {
+			k := rapid.SampledFrom([]string{"int", "string", "struct"}).Draw(t, "itemkind")
+			if i == nilAt {
+				k = "nil"
+			}
+			c.Items = append(c.Items, k)
+		}
+	}
 }
 
 func genWork(t *rapid.T) workCase {
@@ -246,14 +314,16 @@ type exCase struct {
 }
 
 var smallGraphs = []workCase{
-	{Initial: []int{0}, Succ: [][]int{{}}},                                  // single item
-	{Initial: []int{0}, Succ: [][]int{{1}, {}}},                            // chain of 2
-	{Initial: []int{0}, Succ: [][]int{{1}, {2}, {}}},                       // chain of 3
-	{Initial: []int{0}, Succ: [][]int{{1, 2}, {}, {}}},                     // fan-out
-	{Initial: []int{0, 1}, Succ: [][]int{{2}, {2}, {}}},                    // join (duplicate add)
-	{Initial: []int{0}, Succ: [][]int{{0, 1}, {0}}},                        // self loop / back edge
-	{Initial: []int{0, 0, 1}, Succ: [][]int{{}, {}}},                       // duplicate initial adds
-	{Initial: []int{0}, Succ: [][]int{{1, 2}, {3}, {3}, {}}},               // diamond
+	{Initial: []int{0}, Succ: [][]int{{}}},                                                      // single item
+	{Initial: []int{0}, Succ: [][]int{{1}, {}}},                                                 // chain of 2
+	{Initial: []int{0}, Succ: [][]int{{1}, {2}, {}}},                                            // chain of 3
+	{Initial: []int{0}, Succ: [][]int{{1, 2}, {}, {}}},                                          // fan-out
+	{Initial: []int{0, 1}, Succ: [][]int{{2}, {2}, {}}},                                         // join (duplicate add)
+	{Initial: []int{0}, Succ: [][]int{{0, 1}, {0}}},                                             // self loop / back edge
+	{Initial: []int{0, 0, 1}, Succ: [][]int{{}, {}}},                                            // duplicate initial adds
+	{Initial: []int{0}, Succ: [][]int{{1, 2}, {3}, {3}, {}}},                                    // diamond
+	{Initial: []int{0}, Succ: [][]int{{1}, {}}, Items: []string{"nil", "string"}},               // a nil item first
+	{Initial: []int{0}, Succ: [][]int{{1, 2}, {}, {}}, Items: []string{"struct", "nil", "int"}}, // a nil item added from inside f
 }
 
 func checkExhaustive(c exCase) *vt.Fail {
